@@ -491,8 +491,18 @@ ERR_TOKENS = {
     "Utype": (ref.UBX, "frame", ref.frame(0x0B, 0x02, b"\x00")),  # AID-HUI cut inside a field: UBXTypeError
     "Umsg": (ref.UBX, "frame", ref.frame(0x06, 0x8B, bytes(9))),  # CFG-VALGET with key 0: UBXMessageError
 }
+# frame headers that announce far more data than follows (length field >= 0x8000, or the RTCM3 maximum): they swallow
+# whatever comes next, so they are used only by the differential checks (no by-construction expectation applies)
+SWALLOW_TOKENS = {
+    "sw_fff0": (0, "swallow", b"\xb5\x62\x01\x07\xf0\xff"),
+    "sw_8000": (0, "swallow", b"\xb5\x62\x01\x07\x00\x80"),
+    "sw_ffff": (0, "swallow", b"\xb5\x62\x05\x01\xff\xff"),
+    "sw_7fff": (0, "swallow", b"\xb5\x62\x05\x01\xff\x7f"),
+    "sw_rtcm": (0, "swallow", b"\xd3\x03\xff"),
+}
 TOKENS.update(LONG_TOKENS)
 TOKENS.update(ERR_TOKENS)
+TOKENS.update(SWALLOW_TOKENS)
 LONG_NAMES = list(LONG_TOKENS) + list(ERR_TOKENS)
 FRAME_TOKENS = [k for k, v in TOKENS.items() if v[1] == "frame" and k not in LONG_NAMES]
 NOISE_TOKENS = [k for k, v in TOKENS.items() if v[1] == "noise"]
@@ -529,6 +539,16 @@ def token_seqs(k, alphabet):
     for n in range(0, k + 1):
         for t in itertools.product(alphabet, repeat=n):
             yield t
+
+
+def swallow_seqs():
+    """(a?, S, b, c) for every swallowing header S, optional frame before it and two frames after it."""
+    nb = ["Uack", "N1", "R1", "Nbad"]
+    for S in SWALLOW_TOKENS:
+        for a in [None] + nb[:3]:
+            for b in nb:
+                for c in nb[:3]:
+                    yield tuple(x for x in (a, S, b, c) if x is not None)
 
 
 def long_seqs(neighbours):
